@@ -1,5 +1,6 @@
 """C15 -- a peer cannot present two incompatible versions of its own results."""
 import json
+import re
 
 import airgen
 import vlib
@@ -159,6 +160,29 @@ def gen_cases(rng, tier, escalate=False):
 
 HEADER = "From Aqua Require Import Base RunTop Sig SigCases.\nOpen Scope N_scope.\nOpen Scope string_scope.\n"
 
+_LIT = re.compile(r'"((?:[^"]|"")*)"')
+
+
+def shorten(terms):
+    """Peer ids (52 characters) and CIDs (59 characters) make Coq's parsing and string comparisons the dominant
+    cost.  The model only compares strings and sorts CIDs byte-wise, so every literal of 40 or more characters is
+    replaced by an ORDER-PRESERVING short name: "s" + its rank (fixed width) in the byte-wise sorted list of all
+    long literals of the batch (prefix "BAD:" of refused keys kept).  Rust's sort of the real CIDs (printed inside
+    the Sig terms) is thereby still compared with the model's sort."""
+    lits = set()
+    for t in terms:
+        for m in _LIT.finditer(t):
+            if len(m.group(1)) >= 40:
+                lits.add(m.group(1))
+    order = sorted(lits, key=lambda x: x.encode("utf-8"))
+    width = max(4, len(str(len(order))))
+    name = {}
+    for i, l in enumerate(order):
+        short = "s%0*d" % (width, i)
+        name[l] = ("BAD:" + short) if l.startswith("BAD:") else short
+    # "BAD:..." sorts among the other names by its own prefix; refused keys are never sorted or compared by order
+    return [_LIT.sub(lambda m: '"%s"' % name.get(m.group(1), m.group(1)), t) for t in terms], name
+
 
 def evaluate(cases, result, tier):
     if not cases:
@@ -187,11 +211,13 @@ def evaluate(cases, result, tier):
                 result["distribution"]["run-panic"] = result["distribution"].get("run-panic", 0) + 1
         if len(result["samples"]) < 3 and o["coq"]:
             k = min(len(o["coq"]) - 1, 5)
-            result["samples"].append({"case": {kk: cases[ci][kk] for kk in ("gen", "worlds", "particle_id")}, "info": o["info"][k],
+            result["samples"].append({"case": {kk: cases[ci].get(kk) for kk in ("gen", "worlds", "particle_id")}, "info": o["info"][k],
                                       "term": o["coq"][k][:1500]})
     if not terms:
         return
-    fails, errs = vlib.coq_eval_cases("sigs", HEADER, "case_t", {"model": "check_case", "oracle": "c15_oracle"}, terms, shard_size=120)
+    full_terms = terms
+    terms, _names = shorten(full_terms)
+    fails, errs = vlib.coq_eval_cases("sigs", HEADER, "case_t", {"model": "check_case", "oracle": "c15_oracle"}, terms, shard_size=150)
     result["errors"].extend(errs)
 
     def single(ci, ti):
@@ -204,12 +230,12 @@ def evaluate(cases, result, tier):
     for i in fails["model"]:
         ci, ti = owner[i]
         c, info = single(ci, ti)
-        result["mismatch"].append({"case": c, "term_index": ti, "term": terms[i][:6000], "info": info,
+        result["mismatch"].append({"case": c, "term_index": ti, "term": terms[i][:6000], "term_full": full_terms[i][:12000], "info": info,
                                    "what": "model/Sig.v (dv_verification / verification_step) disagrees with the real DataVerifier / execute_air on this pair"})
     for i in fails["oracle"]:
         ci, ti = owner[i]
         c, info = single(ci, ti)
-        result["oracle_fail"].append({"case": c, "term_index": ti, "term": terms[i][:6000], "info": info, "key": None,
+        result["oracle_fail"].append({"case": c, "term_index": ti, "term": terms[i][:6000], "term_full": full_terms[i][:12000], "info": info, "key": None,
                                       "what": "c15_oracle is false on the implementation's observation: "
                                               "incomparable per-peer multisets were not rejected with the previous data returned, "
                                               "or the kept signature does not verify against the larger multiset"})
